@@ -301,6 +301,12 @@ func (c *CEnv) evalIdent(e *CExpr) Val {
 		if v, ok := c.lookup(e.Name); ok {
 			return v
 		}
+		// a variable renamed since the contracts were written (symbols.go)
+		if a, ok := x.aliasOf(e.Name); ok {
+			if v, ok := c.lookup(a); ok {
+				return v
+			}
+		}
 	}
 	switch e.Name {
 	case "nil":
